@@ -73,7 +73,57 @@ def cases(tier, seed):
                    'family': '1d' if i % 2 else '2d', 'etype': ['linear', 'conv'][(i // 2) % 2],
                    'mask_mode': ['binary', 'allpruned'][i % 2], 'fold': False,
                    'seed': seed * 37 + i})
+    for i in range(60 if tier == 'quick' else 900):
+        cs.append({'kind': 'mps', 'prog_seed': seed * 1000003 + 850000 + i, 'family': '2d',
+                   'w_prec': [(0, 2, 4, 8), (0, 4), (8, 0, 2), (0, 8)][i % 4], 'mask_mode': 'coeffs',
+                   'seed': seed * 53 + i})
     return cs
+
+
+def run_mps_case(case, ctx):
+    """the same graph utilities serve MPS: per-channel search with the 0-bit (pruning) option"""
+    from vf import mpslib
+    rng = random.Random(case['prog_seed'])
+    prog = mpslib.gen_mps_program(rng, small=True, max_c=5)
+    try:
+        model, mps, xs = mpslib.convert_mps(prog, case['seed'], case['w_prec'], (2, 4, 8),
+                                            per_channel=True)
+    except Exception as e:
+        ctx.skip('mps: ' + type(e).__name__ + ': ' + str(e)[:80])
+        return
+    mps.eval()
+    mpslib.assign_coefficients(mps, rng)
+    with torch.no_grad():
+        mps(mpslib.in_range_inputs(prog, case['seed'], 2))
+    summ = mps.summary()
+    plain = mpslib.plain_layers(prog)
+    layers = dict(mpslib.mps_layers(mps))
+    masks = {}
+    for name, op in plain.items():
+        wp = summ[name]['w_precision']
+        width = op['cout'] if op['op'] == 'conv' else op['fout']
+        masks[name] = [int(p != 0) for p in wp] if isinstance(wp, list) else [1] * width
+    alive, findings, taint = pitlib.r_alive(prog, masks, (), pitgen.tensor_shapes(prog),
+                                            one_to_one_is_dw=True)
+    ctx.cls('kind:mps')
+    for f in findings:
+        ctx.mon('c09.mask_consistency')
+        ctx.violation('mask-consistency', dict(f, sig='mps:' + f['kind'], taints=[f['kind']]))
+    for name, op in plain.items():
+        if taint[op['src']]:
+            continue
+        L = layers[name]
+        want = float(sum(alive[op['src']]))
+        got = float(L.input_features_calculator.features)
+        own = float(L.out_features_eff)
+        ctx.mon('c09.in_features')
+        if got != want or own != float(sum(masks[name])):
+            ctx.violation('in-features', {'sig': 'mps-in-features', 'layer': name,
+                                          'calculator.features': got, 'expected_alive': want,
+                                          'out_features_eff': own,
+                                          'expected_out': float(sum(masks[name])), 'taints': []})
+    if any(not all(alive[op['src']]) for op in plain.values()):
+        ctx.nontriv(('c09-mps', case['prog_seed'], tuple(case['w_prec']), case['seed']))
 
 
 def worker_setup(ctx):
@@ -127,6 +177,8 @@ KNOWN_TAINTS = {'add:cat': 'pit-add-of-concat-not-frozen', 'tcat:cat': 'pit-add-
 
 def run_case(case, ctx):
     from plinio.methods.pit.nn import PITConv1d, PITConv2d, PITLinear
+    if case['kind'] == 'mps':
+        return run_mps_case(case, ctx)
     prog = build_case_program(case)
     probe, seen = make_probe()
     extra = {}
